@@ -342,7 +342,7 @@ func runC14(c *Ctx) {
 				}
 				return false
 			}
-			for _, f := range reachSSA(wsf, 2) {
+			for _, f := range reachSSAWithValues(wsf, 3) {
 				for _, call := range callsIn(f) {
 					// the caller's callback: a dynamic call of a func value taking the ObjectInfo
 					if !call.Call.IsInvoke() && call.Call.StaticCallee() == nil {
@@ -372,7 +372,7 @@ func runC14(c *Ctx) {
 				return false
 			}
 			silentOnlyOverlay := true
-			for _, f := range reachSSA(wsf, 2) {
+			for _, f := range reachSSAWithValues(wsf, 3) {
 				for _, r := range returnsOf(f) {
 					if len(r.Results) == 1 && isNilConst(r.Results[0]) && lookupEdge(r.Block(), true) && !overlayTrue(r.Block()) {
 						silentOnlyOverlay = false
